@@ -498,10 +498,12 @@ def run_api(case, clock, fakebits):
 def first_divergence(obs):
     """first step whose reply differs from what the live conversation answered at that turn"""
     live = obs["live"]
-    for s in obs["steps"]:
-        if s["turn"] < len(live) and s["got"] != live[s["turn"]]:
+    bad = [s for s in obs["steps"] if s["turn"] < len(live) and s["got"] != live[s["turn"]]]
+    # prefer a deliberate continuation over an attempt whose failure point was simply not reached any more
+    for s in bad:
+        if not s["what"].startswith("attempt with unreached"):
             return s
-    return None
+    return bad[0] if bad else None
 
 
 def shrink_api(case):
